@@ -96,6 +96,14 @@ def find_chains(project, func):
     """All if/elif chains in `func` (not nested functions) that end in `else: raise ...`."""
     out = []
     module = func.module
+    fcfg = None
+    try:
+        from .cfg import CFG
+
+        if isinstance(func.node, (ast.FunctionDef, ast.AsyncFunctionDef)) and any(isinstance(n, ast.If) and isinstance(n.test, ast.Name) for n in ast.walk(func.node)):
+            fcfg = CFG(func.node)
+    except Exception:
+        fcfg = None
     for node in ast.walk(func.node):
         if not isinstance(node, ast.If):
             continue
@@ -113,48 +121,107 @@ def find_chains(project, func):
             else:
                 break
         tail = cur.orelse
+        synthesized = None
+        if not tail and len(tests) > 1 and isinstance(cur.test, ast.Compare) and len(cur.test.ops) == 1 and isinstance(cur.test.ops[0], ast.NotEq) and isinstance(cur.test.comparators[0], ast.Constant) and len(cur.body) == 1 and isinstance(cur.body[0], ast.Raise):
+            # `... elif x != "lit": raise E` followed by the code for "lit": the same as `elif x == "lit": <code>` + `else: raise E`
+            synthesized = ast.copy_location(ast.Compare(left=cur.test.left, ops=[ast.Eq()], comparators=cur.test.comparators), cur.test)
+            synthesized._parent = getattr(cur.test, "_parent", None)
+            tests[-1] = synthesized
+            tail = cur.body
         if not tail or not isinstance(tail[-1], ast.Raise) or len(tail) != 1:
             continue
-        r = tail[0]
-        exc = r.exc.func if isinstance(r.exc, ast.Call) else r.exc
-        fall_exc = src(exc) if exc is not None else "<reraise>"
-        arms = []
-        subjects = {}
-        for t in tests:
-            arm = Arm(test=t)
-            # `isinstance(x, A) and cond` : only an unconditional isinstance covers the class
-            parts = _isinstance_parts(project, module, t, func.node)
-            lit = _literal_parts(t)
-            if parts:
-                s, classes, others = parts
-                arm.classes, arm.other_types = classes, others
-                subjects[s] = subjects.get(s, 0) + 1
-                arm.subject = s
-            elif lit:
-                s, lits = lit
-                arm.literals = lits
-                subjects[s] = subjects.get(s, 0) + 1
-                arm.subject = s
+        ch = _build_chain(project, func, module, fcfg, node, tests, tail)
+        if ch is not None:
+            out.append(ch)
+    # the same dispatch written as a sequence: `if A: return ...` / `if B: return ...` / ... / `raise E`
+    for blk in _blocks(func.node):
+        i = 0
+        while i < len(blk):
+            run = []
+            j = i
+            while j < len(blk) and isinstance(blk[j], ast.If) and not blk[j].orelse and _terminates(blk[j].body):
+                run.append(blk[j])
+                j += 1
+            if len(run) >= 2 and j < len(blk) and isinstance(blk[j], ast.Raise):
+                if enclosing(run[0], (ast.FunctionDef, ast.AsyncFunctionDef)) is func.node:
+                    ch = _build_chain(project, func, module, fcfg, run[0], [x.test for x in run], [blk[j]])
+                    if ch is not None:
+                        out.append(ch)
+                i = j + 1
             else:
-                arm.opaque = True
-                arm.subject = None
-            arms.append(arm)
-        if not subjects:
-            continue
-        subject = max(subjects, key=lambda k: subjects[k])
-        mine = [a for a in arms if getattr(a, "subject", None) == subject]
-        if any(a.classes or a.other_types for a in mine) and not any(a.literals for a in mine):
-            kind = "class"
-        elif any(a.literals for a in mine):
-            kind = "literal"
-        else:
-            continue
-        # arms on another subject / opaque arms do not cover anything
-        for a in arms:
-            if getattr(a, "subject", None) != subject:
-                a.classes, a.other_types, a.literals, a.opaque = [], [], [], True
-        out.append(Chain(func=func, head=node, subject=subject, kind=kind, arms=arms, fallthrough=r, fall_exc=fall_exc))
+                i = max(j, i + 1)
     return out
+
+
+
+def _terminates(body):
+    return bool(body) and isinstance(body[-1], (ast.Return, ast.Raise, ast.Continue, ast.Break))
+
+
+def _blocks(fnode):
+    """statement lists of the function (not of nested functions)"""
+    todo = [fnode.body]
+    while todo:
+        blk = todo.pop()
+        yield blk
+        for st in blk:
+            if isinstance(st, (ast.FunctionDef, ast.AsyncFunctionDef, ast.ClassDef)):
+                continue
+            for fld in ("body", "orelse", "finalbody"):
+                sub = getattr(st, fld, None)
+                if isinstance(sub, list) and sub and isinstance(sub[0], ast.stmt):
+                    todo.append(sub)
+            for h in getattr(st, "handlers", []) or []:
+                todo.append(h.body)
+
+
+def _build_chain(project, func, module, fcfg, node, tests, tail):
+    r = tail[0]
+
+    exc = r.exc.func if isinstance(r.exc, ast.Call) else r.exc
+    fall_exc = src(exc) if exc is not None else "<reraise>"
+    arms = []
+    subjects = {}
+    for t in tests:
+        arm = Arm(test=t)
+        # tests written through a named boolean (`is_paren = tok.text == "("; if is_paren:`) are written out
+        if isinstance(t, (ast.Name, ast.UnaryOp, ast.BoolOp)) and fcfg is not None:
+            ifnode = getattr(t, "_parent", None)
+            at = fcfg.node_for(ifnode) if ifnode is not None else None
+            if at is not None:
+                t = fcfg.expand(t, at)
+        # `isinstance(x, A) and cond` : only an unconditional isinstance covers the class
+        parts = _isinstance_parts(project, module, t, func.node)
+        lit = _literal_parts(t)
+        if parts:
+            s, classes, others = parts
+            arm.classes, arm.other_types = classes, others
+            subjects[s] = subjects.get(s, 0) + 1
+            arm.subject = s
+        elif lit:
+            s, lits = lit
+            arm.literals = lits
+            subjects[s] = subjects.get(s, 0) + 1
+            arm.subject = s
+        else:
+            arm.opaque = True
+            arm.subject = None
+        arms.append(arm)
+    if not subjects:
+        return None
+    subject = max(subjects, key=lambda k: subjects[k])
+    mine = [a for a in arms if getattr(a, "subject", None) == subject]
+    if any(a.classes or a.other_types for a in mine) and not any(a.literals for a in mine):
+        kind = "class"
+    elif any(a.literals for a in mine):
+        kind = "literal"
+    else:
+        return None
+    # arms on another subject / opaque arms do not cover anything
+    for a in arms:
+        if getattr(a, "subject", None) != subject:
+            a.classes, a.other_types, a.literals, a.opaque = [], [], [], True
+    return Chain(func=func, head=node, subject=subject, kind=kind, arms=arms, fallthrough=r, fall_exc=fall_exc)
 
 
 def class_family_root(project, classes):
